@@ -62,8 +62,10 @@ def menus():
     dim("certificateTypes", ("unknown", ["x509", "openpgp"], OUT),
         ("empty", [], OUT))
     dim("minKeySize", ("512", 512, IN), ("2048", 2048, IN),
+        ("3072", 3072, IN),
         ("small", 511, OUT), ("large", 16385, OUT))
     dim("maxKeySize", ("2048", 2048, IN), ("16384", 16384, IN),
+        ("1536", 1536, IN),
         ("small", 511, OUT), ("large", 16385, OUT))
     dim("rsaSigHashes", ("sha256", ["sha256"], IN),
         ("md5", ["sha1", "md5"], IN), ("empty", [], IN),
@@ -397,6 +399,9 @@ def must_connect(cst, sst, cred):
     common = [s for s in cs if s in ss]
     if not common:
         return False, "no common suite at highest version"
+    for st in (cst, sst):
+        if not (st.minKeySize <= 1024 and st.maxKeySize >= 2048):
+            return False, "key size policy may exclude fixture/dh sizes"
     if V == (3, 4):
         groups = [g for g in list(cst.eccCurves) + list(cst.dhGroups)
                   if g in list(sst.eccCurves) + list(sst.dhGroups)]
